@@ -427,6 +427,34 @@ class C10(CodeMonitor):
         except Exception as e:
             stats.violation(case, "shift-raises:" + type(e).__name__, exc_summary(e))
             return
+        # the codec as CodeData drives it: a full from_code/to_code round trip of the
+        # object carrying the table must reproduce the table too (trailing entries go
+        # through _additional_line, extra entries through _line_offsets_override)
+        if not synthetic or n <= 520:
+            from code_data import CodeData
+
+            try:
+                with horizon(H):
+                    c2 = CodeData.from_code(code).to_code()
+                    stats.transitions += 2
+            except HorizonHit:
+                stats.violation(case, "codedata-roundtrip-no-termination", show(table))
+                return
+            except Exception as e:
+                stats.violation(case, "codedata-roundtrip-raises:" + type(e).__name__, "table %s: %s" % (show(table), exc_summary(e)))
+                return
+            t2 = getattr(c2, LINE_ATTR)
+            if t2 != table:
+                raw = ref.raw_instructions(code.co_code)
+                same = all(ref.addr2line(code, f) == ref.addr2line(c2, f) for f, nn, op, a in raw)
+                from mon_code import entry_inside_instruction
+
+                kind = "codedata-roundtrip-differs"
+                if same and entry_inside_instruction(code, raw) and c2.co_code == code.co_code:
+                    kind = "codedata-roundtrip:lnotab-entry-inside-instruction"
+                stats.violation(case, kind, "from_code/to_code re-encodes table %s as %s" % (show(table), show(t2)))
+                return
+            stats.outcomes["codedata-roundtrip-ok"] += 1
         stats.outcomes["table-ok:" + ("model" if synthetic else "real")] += 1
 
 
